@@ -165,3 +165,9 @@ Print Assumptions C09_stable_no_repeat.
 Print Assumptions C09_stable_no_skip.
 Print Assumptions C09_token_roundtrip.
 Print Assumptions C09_nonvacuous.
+
+(* the path arithmetic of the tokens, as TRANSLATED from /repo/traph/helpers.py on this run *)
+From Traph Require GenHelpers GenHelpersFacts.
+Theorem C09_source_base4_append : forall p n, GenHelpers.py_base4_append p n = Helpers.base4_append p n.
+Proof. exact GenHelpersFacts.py_base4_append_eq. Qed.
+Print Assumptions C09_source_base4_append.
